@@ -276,3 +276,37 @@ var _ = func() bool {
 }()
 
 func tokenIsIdent(s string) bool { return verifIsIdentifier(s) }
+
+var _ = func() bool {
+	// cacheids <pkgpath> (after load) -> gaid=<hex> deps=<hex gaid>,... pkg=<hex> asm=<hex> dbgcompile=<hex> dbgasm=<hex>
+	// deps are the garble action IDs of all transitive dependencies in sorted path order, as pkgCacheID hashes them
+	verifOps["cacheids"] = func(a []string) string {
+		lpkg, ok := sharedCache.ListedPackages.get(string(verifUnhex(a[0])))
+		if !ok {
+			return "!not-listed"
+		}
+		lpkg.hasDep("")
+		var paths []string
+		for p := range lpkg.allDeps {
+			paths = append(paths, p)
+		}
+		sort.Strings(paths)
+		var deps []string
+		for _, p := range paths {
+			if dep, ok := sharedCache.ListedPackages.get(p); ok {
+				deps = append(deps, verifHex(dep.GarbleActionID[:]))
+			}
+		}
+		id := pkgCacheID(lpkg)
+		asm := goAsmCacheID(lpkg.GarbleActionID)
+		dc := debugArtifactsCacheID(lpkg.GarbleActionID, debugCacheKindCompile)
+		da := debugArtifactsCacheID(lpkg.GarbleActionID, debugCacheKindAsm)
+		d := strings.Join(deps, ",")
+		if d == "" {
+			d = "-"
+		}
+		return fmt.Sprintf("gaid=%s deps=%s pkg=%s asm=%s dbgcompile=%s dbgasm=%s kinds=%s,%s ndeps=%d", verifHex(lpkg.GarbleActionID[:]), d,
+			verifHex(id[:]), verifHex(asm[:]), verifHex(dc[:]), verifHex(da[:]), verifHex([]byte(debugCacheKindCompile)), verifHex([]byte(debugCacheKindAsm)), len(lpkg.Imports))
+	}
+	return true
+}()
